@@ -6,6 +6,11 @@ COMMON_NOTE = ("Trusted: Lean 4.33 kernel; axioms propext/Classical.choice/Quot.
                "the hand-written model is tied to /repo by the differential correspondence run and the go/ast fact extractor, both re-run by every check; "
                "library behaviour (URL parsing, crypto, JSON/HTML escaping, Go runtime) enters as parameters. ")
 META = {
+    "C01": dict(
+        text="Kernel-checked theorems over the Lean model of the token endpoint and reference store: for every history (induction over the operation list, any length, any number of clients/grants) a code yields tokens at most once, a redemption needs the active record and an exact copy of the code, and an invalidated code stays invalidated through every storage call; the model is tied to /repo by the history correspondence (outcome, storage-call log and store dump per operation) and the property is additionally monitored on the implementation's own traces.",
+        note=COMMON_NOTE + "Sequential, fault-free histories over the HMAC token strategy; JWT access-token strategy not yet in the model. Partial items are listed in evidence.coverage.partial.",
+        technique="Lean 4 proof (invariant by induction over histories, wp-calculus over handler programs) + differential correspondence + trace monitor",
+    ),
     "C12": dict(
         text="Kernel-checked equivalence between the Lean model of each scope/audience strategy loop and its documented meaning for all inputs (induction over segment lists), with the model tied to the Go functions by bounded-exhaustive + seeded differential runs; the documented meaning is also evaluated directly against the implementation as a monitor.",
         note=COMMON_NOTE + "Partial: see evidence.coverage.partial for the strategies/flows whose theorem is not yet proved.",
